@@ -107,7 +107,7 @@ class Sock(V.FakeG):
       raise
     self.send_count += 1
     fault = w.io_fault('send', self.port, self)
-    if fault is not None:
+    if fault is not None and fault != 'parthang':
       w.log.append((w.clock.now, 'send-fault', self.port, self._conn.cid, repr(fault)))
       if fault == 'hang':
         emit('io', 'send', 'hang')
@@ -121,10 +121,36 @@ class Sock(V.FakeG):
     data = bytes(data)
     w.log.append((w.clock.now, 'send', self.port, self._conn.cid, len(data)))
     w.wire.append((w.clock.now, self.port, self._conn.cid, data))
-    emit('io', 'send', 'ok', len(data))
-    if not self._conn.closed_by_peer:
+    self._conn.write_starts.append((self._conn.written, w.next_seq() if hasattr(w, 'next_seq') else None, w.clock.now))
+    self._conn.written += len(data)
+    srv = w.servers[self.port]
+    d = getattr(srv, 'send_delay', 0)
+    gone = self._conn.closed_by_peer
+    if (d or fault == 'parthang') and len(data) > 1:
+      # a slow write: half of the buffer is accepted at once, the caller blocks, the rest follows (or never does: the
+      # peer stopped draining); an exception thrown into the blocked writer leaves the first half on the wire
+      cut = len(data) // 2
+      emit('io', 'send', 'part', cut)
+      self._deliver(data[:cut])
+      if fault == 'parthang':
+        self._hang.wait()
+        raise _socket.error(9, 'Bad file descriptor')
+      V.vsleep(d * V.TICK)
+      if self._closed:
+        emit('io', 'send', 'closed')
+        raise _socket.error(9, 'Bad file descriptor')
+      self._deliver(data[cut:])
+    else:
+      self._deliver(data)
+    if gone or self._conn.closed_by_peer:
+      emit('io', 'send', 'ok', len(data), 'peer-gone')
+    else:
+      emit('io', 'send', 'ok', len(data))
+
+  def _deliver(self, data):
+    if not self._conn.closed_by_peer and not self._conn.closed_by_client:
       self._conn.rx += data
-      w.servers[self.port].on_data(self._conn)
+      self.world.servers[self.port].on_data(self._conn)
 
   def recv_into(self, view, sz=0):
     w = self.world
@@ -371,6 +397,7 @@ _FAULT = {
     'eof': lambda: 'eof',
     'refuse': lambda: False,
     'hang': lambda: 'hang',
+    'parthang': lambda: 'parthang',
     'timedout': lambda: _socket.timeout('injected timed out'),
 }
 
@@ -408,6 +435,7 @@ class Run(object):
       plan[int(k) if isinstance(k, str) and k.lstrip('-').isdigit() else k] = v
     self.srv = cls(PORT, reachable=sv.get('reachable', True), plan=plan, default=sv.get('default'), **kw)
     self.srv.connect_delay = sv.get('connect_delay', 0)
+    self.srv.send_delay = sv.get('send_delay', 0)
     self.w.add_server(self.srv)
     for f in case.get('faults', []):
       self.w.add_fault(f['op'], f['nth'], _mk_fault(f), None)
@@ -566,6 +594,7 @@ class Run(object):
     for (t, _p, cid, data) in self.w.wire:
       wire.append([ticks(t), cid, len(data), data[:8].hex()])
     return {'slices': self.slices, 'requests': reqs, 'wire': wire, 'crashes': self.w.crashes,
+            'malformed': [[ticks(m[0]), m[1], str(m[2])[:80]] for m in self.srv.malformed],
             'pings': getattr(self.srv, 'pings', 0), 'end': ticks(self.w.clock.now)}
 
   def close(self):
